@@ -39,7 +39,7 @@ NO_PANIC_EXACT = {
     "<D as digest::Digest>::chain_update", "<D as digest::Digest>::digest", "<D as digest::Digest>::finalize", "<D as digest::Digest>::new", "<D as digest::Digest>::update", "digest::FixedOutput::finalize_fixed",
     "<T as digest::Mac>::finalize", "<T as digest::Mac>::update", "<T as digest::Mac>::new_from_slice", "<T as digest::Mac>::chain_update",
     "<T as std::convert::Into<U>>::into", "<T as std::convert::TryInto<U>>::try_into", "std::convert::Into::into", "std::convert::AsRef::as_ref",
-    "<num_bigint::BigInt as std::cmp::PartialEq>::eq", "num_bigint::BigInt::from_bytes_le", "num_bigint::BigInt::to_bytes_le", "num_bigint::BigInt::magnitude", "num_bigint::BigUint::to_bytes_le", "std::io::Read::by_ref", "std::io::Write::by_ref", "num_bigint::BigInt::sign", "<num_bigint::Sign as std::cmp::PartialEq>::eq", "<num_bigint::Sign as std::cmp::PartialEq>::ne", "num_bigint::BigInt::bits", "num_bigint::BigInt::is_zero", "<num_bigint::BigInt as num_traits::Zero>::is_zero",
+    "<num_bigint::BigInt as std::cmp::PartialEq>::eq", "num_bigint::BigInt::from_bytes_le", "num_bigint::BigInt::to_bytes_le", "num_bigint::BigInt::magnitude", "num_bigint::BigUint::to_bytes_le", "num_bigint::BigUint::from_bytes_le", "num_bigint::bigint::convert::<impl std::convert::From<num_bigint::BigUint> for num_bigint::BigInt>::from", "std::io::Read::by_ref", "std::io::Write::by_ref", "num_bigint::BigInt::sign", "<num_bigint::Sign as std::cmp::PartialEq>::eq", "<num_bigint::Sign as std::cmp::PartialEq>::ne", "num_bigint::BigInt::bits", "num_bigint::BigInt::is_zero", "<num_bigint::BigInt as num_traits::Zero>::is_zero",
     "<rand::prelude::ThreadRng as rand::RngCore>::fill_bytes", "<rand::prelude::ThreadRng as rand::RngCore>::next_u32", "<rand::prelude::ThreadRng as rand::RngCore>::next_u64", "rand::thread_rng", "rand::random", "rand::Rng::fill", "rand::Rng::gen",
     "<std::result::Result<T, E> as std::ops::Try>::branch",
     "<std::result::Result<T, F> as std::ops::FromResidual<std::result::Result<std::convert::Infallible, E>>>::from_residual",
